@@ -1,8 +1,8 @@
 (* Model/Encoding.v — which encoding decodes a style sheet / an imported sheet,
    what the sheet reports, and how non-encodable characters are written.
 
-   cssutils/util.py _readUrl                     -> read_url (ladder = Gen.GenEnc.readurl_ladder, translated)
-   cssutils/css/cssimportrule.py _setHref        -> resolve  (hand-over = Gen.GenEnc.sethref_handover, translated)
+   cssutils/util.py _readUrl                     -> read_url (ladder = Gen.GenEncoding.readurl_ladder, translated)
+   cssutils/css/cssimportrule.py _setHref        -> resolve  (hand-over = Gen.GenEncoding.sethref_handover, translated)
    cssutils/css/cssstylesheet.py _resolveImport,
         _setCssTextWithEncodingOverride          -> sheet_parse
    cssutils/parse.py parseString / parseUrl      -> parse_string_text / parse_string_bytes / parse_url
@@ -14,7 +14,7 @@
    'utf-8-sig').  Truthiness of an encoding name ('' is false) is the
    harness's business: it passes '' as None.  No proofs here. *)
 From Coq Require Import List NArith Bool Arith.
-From CssV Require Import Base.Regex Base.Chars Base.Tokens Gen.GenLex Gen.GenEnc Model.Tokenizer.
+From CssV Require Import Base.Regex Base.Chars Base.Tokens Gen.GenLex Gen.GenEncoding Model.Tokenizer.
 Import ListNotations.
 Local Open Scope N_scope.
 
